@@ -173,11 +173,10 @@ def run(ctx) -> None:
     # composition step is the one modelled
     ic = prog.function("v1patterns._init_composite_patterns")
     ok = "COMPOSITE_PART_PATTERNS.items()" in unparse(ic.node) and "_replace_pattern_parts" in unparse(ic.node) and "PART_PATTERNS[part_name] = pattern_str" in unparse(ic.node)
-    ctx.check("R1", ok, "_init_composite_patterns composes COMPOSITE_PART_PATTERNS into PART_PATTERNS by placeholder substitution",
-              "v1patterns._init_composite_patterns: composition step changed (model not applicable)", "", loc=ic.loc())
+    ctx.require(ok, "v1patterns._init_composite_patterns: composition step changed (the composed-regex model is not applicable)")
     rp = prog.function("v1patterns._replace_pattern_parts")
     ok = "(?P<{part_name}>{part_pattern})" in unparse(rp.node)
-    ctx.check("R1", ok, "_replace_pattern_parts (v1) emits (?P<part>regex) per placeholder", "v1patterns._replace_pattern_parts: named group shape changed", "", loc=rp.loc())
+    ctx.require(ok, "v1patterns._replace_pattern_parts: named group shape changed (model not applicable)")
 
     fv = prog.function("v1version.format_version")
     ctx.visit(fv.fq)
@@ -185,7 +184,7 @@ def run(ctx) -> None:
     # format_version replaces {p} by FULL_PART_FORMATS[p] and then str.format(**kwargs)
     src = unparse(fv.node)
     ok = "FULL_PART_FORMATS.items()" in src and "full_pattern.format(**kwargs)" in src
-    ctx.check("R1", ok, "format_version (v1): placeholder expansion through FULL_PART_FORMATS then str.format(**kwargs)", "v1version.format_version: rendering pipeline changed", "", loc=fv.loc())
+    ctx.require(ok, "v1version.format_version: rendering pipeline changed (FULL_PART_FORMATS expansion + str.format model not applicable)")
 
     all_parts = sorted(set(pats) | set(comps))
     ctx.floor("R1", "legacy parts", len(all_parts), 40)
